@@ -94,6 +94,15 @@ def build(name):
             pass
         T = C if name == 'as_forged_class' else D
         return {'objs': {'w': T, 'base': C}, 'calls': {'sig': lambda: sigtools.signature(T), 'inspect': lambda: inspect.signature(T)}}
+    if name == 'forger_emulate_special':
+        # an emulated declaration on an attribute the wrapper converts on first lookup (__init_subclass__ -> classmethod): first lookups race
+        class K(object):
+            @specifiers.forwards_to_function(inner, emulate=True)
+            def __init_subclass__(cls, flavour, *args, **kwargs):
+                return inner(*args, **kwargs)
+        # (the wrapper object converts what it wraps on its first lookup, by design: it is not among the watched objects)
+        return {'objs': {'inner': inner},
+                'calls': {'sig': lambda: sigtools.signature(K.__init_subclass__), 'inspect': lambda: inspect.signature(K.__init_subclass__)}}
     if name == 'forger_bound_method':
         # a bound method takes no attributes: the declaration falls back on wrapping it (_ForgerWrapper) by itself
         class K(object):
@@ -188,7 +197,7 @@ def build(name):
     raise ValueError(name)
 
 
-SCENARIOS = ['wraps', 'wraps_chain', 'signature_attr', 'signature_attr_upgraded', 'forger', 'forger_emulate', 'modifiers', 'as_forged', 'as_forged_class', 'as_forged_subclass', 'forger_bound_method', 'sig_property', 'combination', 'decorator', 'method_kwo',
+SCENARIOS = ['wraps', 'wraps_chain', 'signature_attr', 'signature_attr_upgraded', 'forger', 'forger_emulate', 'modifiers', 'as_forged', 'as_forged_class', 'as_forged_subclass', 'forger_bound_method', 'forger_emulate_special', 'sig_property', 'combination', 'decorator', 'method_kwo',
              'forger_function', 'partial_wraps', 'super_class', 'wrapper_decorator']
 WATCHED = ('__wrapped__', '__signature__', '_sigtools__forger', '_sigtools__wrappers')
 
@@ -562,11 +571,14 @@ SCHED_CASES = [('wraps', ['sig', 'sig']), ('wraps', ['sig', 'inspect']), ('wraps
                ('as_forged', ['sig', 'inspect']), ('forger_emulate', ['inspect', 'inspect']), ('modifiers', ['sig', 'sig']), ('method_kwo', ['sig', 'bind']),
                ('decorator', ['inspect', 'sig']), ('wraps', ['sig', 'sig', 'inspect']), ('partial_wraps', ['sig', 'inspect']), ('super_class', ['sig', 'sig']),
                ('wrapper_decorator', ['inspect', 'inspect']), ('forger_function', ['sig', 'inspect']), ('as_forged_class', ['sig', 'inspect']), ('as_forged_subclass', ['sig', 'sig']),
-               ('forger_bound_method', ['sig', 'inspect']), ('sig_property', ['sig', 'inspect']), ('combination', ['sig', 'sig'])]
+               ('forger_bound_method', ['sig', 'inspect']), ('sig_property', ['sig', 'inspect']), ('combination', ['sig', 'sig']),
+               ('forger_emulate_special', ['sig', 'sig']), ('forger_emulate_special', ['sig', 'inspect'])]
+# cases whose one-preemption schedules are ALL run in every tier (a race on a first lookup is one specific line)
+FULL_ONE = {'forger_emulate_special'}
 
 
 # cases where the second preemption is SWEPT over every step of the other thread while the first thread is parked part-way (holding what it holds)
-SWEEP_CASES = [('method_kwo', ['hold_drop', 'sig']), ('method_kwo', ['hold_drop', 'inspect']), ('signature_attr_upgraded', ['noauto', 'partial'])]
+SWEEP_CASES = [('method_kwo', ['hold_drop', 'sig']), ('method_kwo', ['hold_drop', 'inspect']), ('signature_attr_upgraded', ['noauto', 'partial']), ('wraps', ['sig', 'sig'])]
 
 
 def sched_gen(seed, n1, n2, sweep_all=False):
@@ -580,7 +592,7 @@ def sched_gen(seed, n1, n2, sweep_all=False):
             steps = [count_steps(scen, c) for c in calls]
             scheds = []
             one = [(a, b, n) for a in range(len(calls)) for b in range(len(calls)) if a != b and steps[a] for n in range(steps[a] + 1)]
-            if n1 is not None and len(one) > n1:
+            if n1 is not None and len(one) > n1 and scen not in FULL_ONE:
                 one = rnd.sample(one, n1)
             for a, b, n in one:
                 scheds.append([(a, n), (b, None), (a, None)])
@@ -603,6 +615,12 @@ def sched_gen(seed, n1, n2, sweep_all=False):
                         for n in range(steps[b] + 1):
                             if k % nshards == shard:
                                 yield sched_run('sweep/%s-%s-%d' % (scen, '+'.join(calls), k), scen, calls, [(a, park), (b, n), (a, None), (b, None)])
+                            k += 1
+                    # and the other way round: a is stopped at EVERY step, then b runs part-way (and stays there while a goes on)
+                    for park in sorted({steps[b] // 4, steps[b] // 2, (3 * steps[b]) // 4}):
+                        for n in range(steps[a] + 1):
+                            if k % nshards == shard:
+                                yield sched_run('sweep2/%s-%s-%d' % (scen, '+'.join(calls), k), scen, calls, [(a, n), (b, park), (a, None), (b, None)])
                             k += 1
     return gen
 
